@@ -12,7 +12,7 @@ AST (JSON):
   fexpr ::= {"task":body} | {"item":[kind,key,act]} | {"const":val} | {"error":id} | {"lazy":outcome}
   act   ::= {"set":val} | {"err":id} | "skip"
   ctx   ::= {"async":[cid, fault]} | {"nonasync":cid} | {"override":[cid,var,val]}
-  fault ::= None | {"resume":[k,e]} | {"pause":[k,e]} | {"pause":[k,e],"sticky":true} | {"exit":e}
+  fault ::= None | {"resume":[k,e]} | {"pause":[k,e]} | {"pause":[k,e],"sticky":true} | {"resume":[k,e],"sticky":true} | {"exit":e}
             (k-th scheduler-driven call raises e; "sticky": from then on EVERY pause() call on the context raises e, also the
              one a with block's __exit__ makes - implementation side only: for the model it is PauseRaises k e, and the two
              coincide exactly when no pause() follows a failed one)
